@@ -638,6 +638,9 @@ func (s *BgpServer) prePolicyFilterpath(peer *peer, path, old *table.Path) (*tab
 		}
 		if table.CanImportToVrf(vrf, path) {
 			path = path.ToLocal()
+		} else if old != nil && !path.IsWithdraw && table.CanImportToVrf(vrf, old) {
+			path = old.ToLocal().Clone(true)
+			old = nil
 		} else {
 			return nil, nil, true
 		}
